@@ -1,6 +1,6 @@
 (** C16 — children live exactly as long as their parent and receive its broadcasts.
     Statements only; proofs live in Inv/. *)
-From Hannibal Require Import Model.Sys Inv.C16 Inv.C16b Chk.C16.
+From Hannibal Require Import Model.Sys Inv.C16 Inv.C16b Inv.C16c Chk.C16.
 
 (** A child is registered by handing the parent a strong Sender: the handle stays in the table
     (it was counted as a strong reference when it was created) and is appended to the parent's
@@ -41,6 +41,23 @@ Theorem C16_broadcast_targets :
     /\ actors s' a = Some x' /\ a_bcur x' = S (a_bcur x) /\ a_children x' = a_children x.
 Proof. exact bcast_target. Qed.
 Print Assumptions C16_broadcast_targets.
+
+(** Delivery: the copy made for a child lands at the tail of that child's mailbox - behind
+    everything the child had accepted before, so C01 (first in, first handled; handled at most
+    once) and C05 / C04 (everything accepted is handled before a graceful end) speak for it from
+    there on - whenever that mailbox still takes messages; a child whose mailbox is closed
+    (it is terminating or has terminated) gets nothing, and no other actor's mailbox changes
+    (C16_broadcast_targets: the operation is recorded against that child alone). *)
+Theorem C16_copy_lands_at_the_tail_of_the_childs_mailbox :
+  forall s a ty o s', step s (EvBcast a ty o) = Acc s' ->
+  exists x h b k xb xb',
+    actors s a = Some x
+    /\ nth_error (filter (fun c => Nat.eqb (fst c) ty) (a_children x)) (a_bcur x) = Some (ty, h)
+    /\ handles s h = Some (b, k)
+    /\ actors s b = Some xb /\ actors s' b = Some xb'
+    /\ a_queue xb' = (if a_rx xb then a_queue xb ++ [PTask o] else a_queue xb).
+Proof. exact bcast_lands. Qed.
+Print Assumptions C16_copy_lands_at_the_tail_of_the_childs_mailbox.
 
 (** Completeness of a broadcast, on every execution the model accepts (simulation to the machine
     of Chk/C16.v): when [send_to_children] returns it has made exactly one submission per child
